@@ -980,7 +980,7 @@ func (g *gen) stmtPanicky() {
 func (g *gen) stmt() {
 	g.budget--
 	g.curHasCall, g.curHasFault = false, false
-	k := g.pick("stmt", 28)
+	k := g.pick("stmt", 34)
 	if g.rangeDepth > 0 && g.off["recover.in_range"] && k == 23 {
 		k = 0 // no recovered panic inside a range loop (helpers that recover are filtered by callable)
 	}
@@ -1017,8 +1017,10 @@ func (g *gen) stmt() {
 			return
 		}
 		g.stmtPointer()
-	default:
+	case 26, 27:
 		g.stmtIface()
+	default:
+		g.stmtExtra()
 	}
 }
 
